@@ -5,7 +5,7 @@
 # records everything in /verif/seeded/<seed id>/.
 SRC="$1"; ID="$2"; shift 2
 D="$(cd "$(dirname "$0")/.." && pwd)"
-export GOFLAGS=-mod=mod GOPROXY=off GOSUMDB=off GOTOOLCHAIN=local CGO_ENABLED=0
+export GOFLAGS=-mod=mod GOPROXY=off GOSUMDB=off GOTOOLCHAIN=local
 unset GOWORK
 S="$(mktemp -d /tmp/gtfs-seed.XXXXXX)"
 trap 'rm -rf "$S"' EXIT
@@ -38,6 +38,7 @@ git -C "$S" apply "$SRC/patch.diff" || { echo "APPLY FAIL"; exit 2; }
 for f in $PLACED; do rm -f "$S/$f"; done
 ( cd "$S" && go test -vet=off -count=1 ./... ) >"$S/.suite.out" 2>&1 && echo "EXISTING SUITE with change: ok" || { echo "EXISTING SUITE with change: FAIL"; grep -E '^(--- FAIL|FAIL)' "$S/.suite.out" | head; }
 for P in "$@"; do
+  mkdir -p "$S/.verif"; cp "$D/known-findings.txt" "$S/.verif/" 2>/dev/null
   OUT="$(VERIF_DIR="$S/.verif" "$D/bin/gtfscheck" -property "$P" -tier quick -repo "$S" 2>&1)"
   if echo "$OUT" | grep -q '^VIOLATION'; then
     echo "CHECK $P: CAUGHT"; echo "$OUT" | grep -E '^(VIOLATED|UNDECIDED|ANALYSER)' -A2 | grep -v '^VIOLATION' | head -12
